@@ -24,7 +24,7 @@ pub fn runs_for(tier: &str) -> u64 {
     }
     match tier {
         "thorough" => 200_000,
-        _ => 32_000,
+        _ => 24_000,
     }
 }
 
